@@ -438,7 +438,14 @@ func genHeavyItem(t *Tape) Item {
 	return it
 }
 
-func genItem(t *Tape) Item {
+func genItem(t *Tape) Item { return genItemOfKind(t, -1) }
+
+const histItemKinds = 25
+
+// genItemOfKind: kind >= 0 forces the program family (themed histories run
+// several different items of one family in one process: whatever that family
+// caches or keeps between runs is hit from several sides)
+func genItemOfKind(t *Tape, kind int) Item {
 	it := Item{}
 	doc := func() string {
 		switch t.Weighted(4, 3, 2) {
@@ -469,7 +476,11 @@ func genItem(t *Tape) Item {
 		it.Inputs = append(it.Inputs, ProgInput{Name: "in2.json", Data: QBytes(doc())})
 	}
 	k1, k2 := histKeys[t.Draw(len(histKeys))], histKeys[t.Draw(len(histKeys))]
-	switch t.Weighted(5, 5, 3, 3, 3, 2, 2, 2, 2, 2, 2, 1, 1, 4, 2, 3, 2, 4, 3, 3, 5, 3, 4, 3, 3) {
+	family := t.Weighted(5, 5, 3, 3, 3, 2, 2, 2, 2, 2, 2, 1, 1, 4, 2, 3, 2, 4, 3, 3, 5, 3, 4, 3, 3)
+	if kind >= 0 {
+		family = kind % histItemKinds
+	}
+	switch family {
 	case 24:
 		// root selectors that print, over several documents, with rules that print
 		// too: the order of the lines is part of the output however the bytes arrive
@@ -622,8 +633,16 @@ func registerC10() {
 		Gen: func(i int, t *Tape, tier string) any {
 			c := &HistCase{Kind: "history"}
 			n := 3 + t.Draw(6)
+			theme := -1
+			if t.Chance(1, 3) {
+				theme = t.Draw(histItemKinds)
+			}
 			for k := 0; k < n; k++ {
-				c.Items = append(c.Items, genItem(t))
+				if theme >= 0 && t.Chance(3, 4) {
+					c.Items = append(c.Items, genItemOfKind(t, theme))
+				} else {
+					c.Items = append(c.Items, genItem(t))
+				}
 			}
 			m := 10 + t.Draw(51)
 			heavy := -1
